@@ -23,9 +23,11 @@ import (
 	"os"
 	"os/exec"
 	"runtime"
+	"runtime/pprof"
 	"strconv"
 	"strings"
 	"sync"
+	"sync/atomic"
 	"syscall"
 	"time"
 
@@ -53,6 +55,8 @@ type caseResult struct {
 	decoded  string
 	reencode string
 	reEqual  interface{}
+	reErr    string // error text of EncodeFrame or of the second DecodeFrame, or the first difference
+	reClass  string // stable slug (reclass.go)
 	detail   string
 }
 
@@ -126,6 +130,12 @@ func reencode(codec frame.RawCodec, f *frame.Frame, res *caseResult) {
 		}
 		res.reEqual = nil
 		res.detail = "re-encode: " + w
+		res.reErr = w
+		if oc == "panic" {
+			res.reClass = "unclassified"
+		} else {
+			res.reClass = classifyReencode(f, "encode", w)
+		}
 		return
 	}
 	res.reencode = "ok"
@@ -133,14 +143,23 @@ func reencode(codec frame.RawCodec, f *frame.Frame, res *caseResult) {
 	if oc2 != "ok" {
 		res.reEqual = false
 		res.detail = "decode of the re-encoded frame: " + oc2 + " " + w2
+		res.reErr = w2
+		res.reClass = classifyReencode(f, "decode", w2)
 		return
 	}
 	if d := frameEquiv(f, f2); d != "" {
 		res.reEqual = false
 		res.detail = "re-decoded frame differs: " + d
+		res.reErr = d
+		res.reClass = classifyReencode(f, "differs", d)
 		return
 	}
 	res.reEqual = c2 == len(enc)
+	if c2 != len(enc) {
+		res.detail = fmt.Sprintf("decode of the re-encoded frame leaves %d of %d bytes unread", len(enc)-c2, len(enc))
+		res.reErr = res.detail
+		res.reClass = "unclassified"
+	}
 }
 
 func recordOf(j *job, res caseResult) J {
@@ -151,6 +170,10 @@ func recordOf(j *job, res caseResult) J {
 	}
 	if res.outcome == "ok" {
 		rec["decoded"] = res.decoded
+	}
+	if res.reClass != "" {
+		rec["reencode_error"] = res.reErr
+		rec["reencode_class"] = res.reClass
 	}
 	if res.detail != "" {
 		rec["detail"] = res.detail
@@ -164,44 +187,90 @@ const caseTimeout = 5 * time.Second
 // "timeout" (the goroutine cannot be killed: the worker exits afterwards and the parent starts a new one).
 func runWithTimeout(j *job) (J, bool) {
 	done := make(chan caseResult, 1)
+	t0 := time.Now()
 	go func() { done <- runEntry(j) }()
 	select {
 	case res := <-done:
-		return recordOf(j, res), false
+		rec := recordOf(j, res)
+		if os.Getenv("VERIF_FRAME_STATS") != "" {
+			rec["us"] = time.Since(t0).Microseconds()
+		}
+		if ms := time.Since(t0).Milliseconds(); ms >= 20 {
+			rec["slow_ms"] = ms // informative: never compared
+		}
+		return rec, false
 	case <-time.After(caseTimeout):
 		return recordOf(j, caseResult{outcome: "timeout", reencode: "n/a"}), true
 	}
 }
 
-func limitAddressSpace() {
-	mb := int64(1024)
-	if s := os.Getenv("VERIF_FRAME_VMEM_MB"); s != "" {
+// Memory guard of a worker.  A decoder that sizes an allocation by a count read from the wire can ask for tens of GiB.
+//   - RLIMIT_AS is set to the address space the worker occupies once started plus VERIF_FRAME_VMEM_MB (default 192 MiB;
+//     a stricter `ulimit -v` of the caller is left alone): larger requests fail at once with the runtime's
+//     out-of-memory fatal error.  The limit is relative because the Go runtime itself reserves more than 1 GiB.
+//   - a watchdog ends the worker (exit status 6) when its resident memory passes VERIF_FRAME_RSS_MB (default 1024):
+//     the backstop when no address-space limit can be set.
+//
+// Both are reported as outcome "oom".
+func envMB(name string, def int64) int64 {
+	if s := os.Getenv(name); s != "" {
 		if v, err := strconv.ParseInt(s, 10, 64); err == nil {
-			mb = v
+			return v
 		}
 	}
-	if mb <= 0 {
-		return
+	return def
+}
+
+func statmField(i int) int64 {
+	b, err := os.ReadFile("/proc/self/statm")
+	if err != nil {
+		return 0
 	}
-	var cur syscall.Rlimit
-	if err := syscall.Getrlimit(syscall.RLIMIT_AS, &cur); err != nil {
-		return
+	f := strings.Fields(string(b))
+	if len(f) <= i {
+		return 0
 	}
-	want := uint64(mb) << 20
-	if cur.Cur != ^uint64(0) && cur.Cur <= want {
-		return // the caller's ulimit -v is already stricter
+	pages, _ := strconv.ParseInt(f[i], 10, 64)
+	return pages * int64(os.Getpagesize())
+}
+
+func limitAddressSpace() {
+	mb := envMB("VERIF_FRAME_VMEM_MB", 192)
+	if size := statmField(0); mb > 0 && size > 0 {
+		var cur syscall.Rlimit
+		if err := syscall.Getrlimit(syscall.RLIMIT_AS, &cur); err == nil {
+			want := uint64(size) + uint64(mb)<<20
+			if cur.Cur == ^uint64(0) || cur.Cur > want {
+				lim := syscall.Rlimit{Cur: want, Max: cur.Max}
+				if cur.Max != ^uint64(0) && cur.Max < want {
+					lim.Cur = cur.Max
+				}
+				_ = syscall.Setrlimit(syscall.RLIMIT_AS, &lim)
+			}
+		}
 	}
-	lim := syscall.Rlimit{Cur: want, Max: cur.Max}
-	if cur.Max != ^uint64(0) && cur.Max < want {
-		lim.Cur = cur.Max
+	rss := envMB("VERIF_FRAME_RSS_MB", 1024)
+	if rss > 0 {
+		go rssWatchdog(rss << 20)
 	}
-	_ = syscall.Setrlimit(syscall.RLIMIT_AS, &lim)
+}
+
+func residentBytes() int64 { return statmField(1) }
+
+func rssWatchdog(limit int64) {
+	for {
+		time.Sleep(20 * time.Millisecond)
+		if r := residentBytes(); r > limit {
+			fmt.Fprintf(os.Stderr, "harness: out of memory guard: resident memory %d bytes above the limit of %d\n", r, limit)
+			os.Exit(6)
+		}
+	}
 }
 
 // worker: jobs as JSON lines on stdin, one record per job on stdout, flushed after every record.
 func cmdWorker() {
 	limitAddressSpace()
-	in := bufio.NewReaderSize(os.Stdin, 1<<20)
+	in := bufio.NewReaderSize(os.Stdin, 1<<16)
 	for {
 		line, err := in.ReadBytes('\n')
 		if len(line) > 1 {
@@ -210,11 +279,20 @@ func cmdWorker() {
 				fmt.Fprintln(os.Stderr, "worker: bad job:", jerr)
 				os.Exit(4)
 			}
+			t0 := time.Now()
 			rec, timedOut := runWithTimeout(&j)
 			hlib.Emit(rec)
 			hlib.Flush()
 			if timedOut {
 				os.Exit(3)
+			}
+			if time.Since(t0) > 200*time.Microsecond {
+				// a case that made the heap grow: start afresh rather than reuse (and zero) hundreds of MiB
+				var ms runtime.MemStats
+				runtime.ReadMemStats(&ms)
+				if ms.HeapSys > 48<<20 {
+					os.Exit(5)
+				}
 			}
 		}
 		if err != nil {
@@ -247,7 +325,8 @@ func classifyDeath(stderr string, waitErr error) (string, string) {
 	}
 	low := strings.ToLower(stderr)
 	switch {
-	case strings.Contains(low, "out of memory") || strings.Contains(low, "cannot allocate memory") || strings.Contains(low, "cannot reserve"):
+	case strings.Contains(low, "out of memory") || strings.Contains(low, "cannot allocate memory") || strings.Contains(low, "cannot reserve") ||
+		strings.Contains(low, "pthread_create failed"):
 		return "oom", first
 	case strings.Contains(low, "stack overflow") || strings.Contains(low, "stack exceeds"):
 		return "panic", "fatal: " + first
@@ -281,11 +360,23 @@ func (c *cappedBuffer) String() string { c.mu.Lock(); defer c.mu.Unlock(); retur
 
 // runShard runs jobs[lo:hi] through worker processes, restarting the worker after each death; results[i] receives
 // the JSON line of job i.
-func runShard(self string, jobs []job, lo, hi int, results [][]byte) {
+func runShard(self string, alljobs []job, idx []int, allresults [][]byte) {
+	jobs := make([]job, len(idx))
+	for k, ix := range idx {
+		jobs[k] = alljobs[ix]
+	}
+	results := make([][]byte, len(idx))
+	defer func() {
+		for k, ix := range idx {
+			allresults[ix] = results[k]
+		}
+	}()
+	lo, hi := 0, len(jobs)
 	i := lo
 	for i < hi {
+		atomic.AddInt64(&workerStarts, 1)
 		cmd := exec.Command(self, "worker")
-		cmd.Env = os.Environ()
+		cmd.Env = append(os.Environ(), "GOMAXPROCS="+workerProcs()) // few threads per worker: the parallelism is across workers
 		stdin, err1 := cmd.StdinPipe()
 		stdout, err2 := cmd.StdoutPipe()
 		errBuf := &cappedBuffer{}
@@ -312,7 +403,7 @@ func runShard(self string, jobs []job, lo, hi int, results [][]byte) {
 		}()
 		lines := make(chan []byte, 64)
 		go func() {
-			rd := bufio.NewReaderSize(stdout, 1<<20)
+			rd := bufio.NewReaderSize(stdout, 1<<16)
 			for {
 				line, err := rd.ReadBytes('\n')
 				if len(line) > 1 && line[len(line)-1] == '\n' {
@@ -357,8 +448,8 @@ func runShard(self string, jobs []job, lo, hi int, results [][]byte) {
 		werr := cmd.Wait()
 		if !killed {
 			// the worker died while working on job i (a timeout record is followed by a deliberate exit: nothing to add)
-			if ee, ok := werr.(*exec.ExitError); ok && ee.ExitCode() == 3 {
-				continue
+			if ee, ok := werr.(*exec.ExitError); ok && (ee.ExitCode() == 3 || ee.ExitCode() == 5) {
+				continue // deliberate exits after a record: timeout reported, or recycling after a large allocation
 			}
 			oc, detail := classifyDeath(errBuf.String(), werr)
 			results[i], _ = json.Marshal(recordOf(&jobs[i], caseResult{outcome: oc, reencode: "n/a", detail: detail}))
@@ -367,7 +458,28 @@ func runShard(self string, jobs []job, lo, hi int, results [][]byte) {
 	}
 }
 
+var workerStarts int64
+
+func workerProcs() string {
+	if s := os.Getenv("VERIF_FRAME_WORKER_PROCS"); s != "" {
+		return s
+	}
+	return "2"
+}
+
 func runJobs(jobs []job) {
+	t0 := time.Now()
+	if pf := os.Getenv("VERIF_FRAME_PROF"); pf != "" {
+		if f, err := os.Create(pf); err == nil {
+			_ = pprof.StartCPUProfile(f)
+			defer pprof.StopCPUProfile()
+		}
+	}
+	defer func() {
+		if os.Getenv("VERIF_FRAME_STATS") != "" {
+			fmt.Fprintf(os.Stderr, "harness-frame: %d jobs, %d worker starts, %.1f s\n", len(jobs), atomic.LoadInt64(&workerStarts), time.Since(t0).Seconds())
+		}
+	}()
 	self, err := os.Executable()
 	if err != nil {
 		self = os.Args[0]
@@ -386,20 +498,19 @@ func runJobs(jobs []job) {
 		}
 	}
 	var wg sync.WaitGroup
-	chunk := (len(jobs) + par - 1) / par
 	for p := 0; p < par; p++ {
-		lo, hi := p*chunk, (p+1)*chunk
-		if hi > len(jobs) {
-			hi = len(jobs)
+		var idx []int
+		for i := p; i < len(jobs); i += par { // strided: the slow families are spread over all workers
+			idx = append(idx, i)
 		}
-		if lo >= hi {
+		if len(idx) == 0 {
 			continue
 		}
 		wg.Add(1)
-		go func(lo, hi int) {
+		go func(idx []int) {
 			defer wg.Done()
-			runShard(self, jobs, lo, hi, results)
-		}(lo, hi)
+			runShard(self, jobs, idx, results)
+		}(idx)
 	}
 	wg.Wait()
 	for i, r := range results {
@@ -619,7 +730,7 @@ func headerMutations(s *jobSink, thorough bool) {
 		mut := func(off int, val byte, what string) {
 			m := append([]byte{}, enc...)
 			m[off] = val
-			s.add(entries, b, hbase.v, hbase.comp, m, originOf(b, what))
+			s.add([]string{"header", "frame"}, b, hbase.v, hbase.comp, m, originOf(b, what))
 		}
 		for x := 0; x < 256 && (bi < 4 || thorough); x++ {
 			mut(0, byte(x), fmt.Sprintf("version byte=%#02x", x))
@@ -809,75 +920,110 @@ func randomBytes(s *jobSink, bases []*baseFrame, rnd *rand.Rand) {
 	}
 }
 
-// cmdMalformed: header mutations, then about n inputs of the other families (thorough: every field value of every
-// base, every window, every truncation offset and every bit of a sample of bases, plus n random inputs).
+// minimal inputs of the known classes of the C05 re-encode clause (reclass.go): always emitted first, entry "frame"
+var reencodeCorpus = []struct {
+	slug    string
+	version primitive.ProtocolVersion
+	hex     string
+}{
+	{"prepare-empty-query", v4, "04000001090000000400000000"},
+	{"authenticate-empty-authenticator", v4, "8400000103000000020000"},
+	{"register-empty-list", v4, "040000010b000000020000"},
+	{"setkeyspace-empty-keyspace", v4, "840000010800000006000000030000"},
+	{"schemachange-empty-keyspace", v4, "8400000108000000190000000500074352454154454400084b455953504143450000"},
+	{"schemachange-empty-object", v4, "84000001080000001a0000000500074352454154454400055441424c4500026b730000"},
+	{"prepared-empty-id", v4, "84000001080000001a0000000400000000000000000000000000000000000400000000"},
+	{"prepared-empty-result-metadata-id", v5, "85000001080000001d0000000400010100000000000000000000000000000000000400000000"},
+	{"unknown-change-type", v4, "840000010c0000001b000d5354415455535f4348414e4745000158047f00000100002352"},
+	{"non-serial-serial-consistency", v4, "04000001070000000a00000001710001100001"},
+	{"batch-child-empty-query", v4, "040000010d0000000d00000100000000000000000100"},
+	{"batch-child-empty-id", v4, "040000010d0000000b0000010100000000000100"},
+	{"custom-payload-below-v4", v3, "8304000102000000020000"},
+	{"warnings-below-v4", v3, "8308000102000000020000"},
+	{"page-size-non-positive", v4, "04000001070000000c0000000171000104ffffffff"},
+	{"continuous-page-non-positive", dse1, "c1000001080000001400000002c0000004000000000000000000000000"},
+}
+
+// cmdMalformed: the fixed header mutations, then about n records (cases = input x entry point) of the other families
+// (thorough: in addition every field value of every base, every window, every truncation offset and every bit of a
+// sample of bases).
 func cmdMalformed(args []string) {
 	n, thorough := argN(args)
+	tGen := time.Now()
 	rnd := rand.New(rand.NewSource(hlib.Seed()))
 	bases := collectBases(rnd, thorough)
 	s := &jobSink{seen: map[string]bool{}}
+	for _, c := range reencodeCorpus {
+		in, _ := hex.DecodeString(c.hex)
+		s.add([]string{"frame"}, nil, c.version, "none", in, "corpus: re-encode class "+c.slug)
+	}
 	headerMutations(s, thorough)
 	order := rnd.Perm(len(bases))
 	if thorough {
 		for _, b := range bases {
-			fieldMutations(s, b, 1<<30, rnd)
+			if !strings.HasPrefix(b.gc.class, "rich") && len(b.fields) <= 200 {
+				fieldMutations(s, b, 1<<30, rnd) // every field of every kind x version x {plain, all flags, compressed} base
+			}
 		}
 		for i, bi := range order {
-			if i < 120 {
+			if i < 40 {
 				windowMutations(s, bases[bi])
 			}
-			if i < 400 {
+			if i < 200 {
 				truncations(s, bases[bi], true, rnd, 0)
 			}
-			if i < 60 && len(bases[bi].enc) < 200 {
+			if i < 40 && len(bases[bi].enc) < 200 {
 				bitFlips(s, bases[bi], true, rnd, 0)
 			}
 		}
 	}
-	// budgeted part: n inputs, 50% field values, 15% truncations, 15% bit flips, 10% splices, 10% random
+	// budgeted part: about n records (cases), 50% field values, 15% truncations, 15% bit flips, 10% splices, 10% random
 	if n > 0 && len(bases) > 0 {
-		perBase := func(share int) int {
-			k := (n*share/100 + len(bases) - 1) / len(bases)
+		start := len(s.jobs)
+		used := func() int { return len(s.jobs) - start }
+		// each family stops when its share of the n records is used up; inputs per base so that all bases take part
+		perBase := func(share, recordsPerInput int) int {
+			k := (n*share/100/recordsPerInput + len(bases) - 1) / len(bases)
 			if k < 1 {
 				k = 1
 			}
 			return k
 		}
-		quota := map[string]int{"field": n * 50 / 100, "trunc": n * 15 / 100, "flip": n * 15 / 100, "splice": n * 10 / 100, "random": n * 10 / 100}
-		for _, bi := range order {
-			b := bases[bi]
-			if quota["field"] > 0 {
-				quota["field"] -= fieldMutations(s, b, min(perBase(50), quota["field"]), rnd)
-			}
-			if quota["trunc"] > 0 {
-				quota["trunc"] -= truncations(s, b, false, rnd, min(perBase(15), quota["trunc"]))
-			}
-			if quota["flip"] > 0 {
-				quota["flip"] -= bitFlips(s, b, false, rnd, min(perBase(15), quota["flip"]))
-			}
-		}
-		// bases with few fields leave quota over: a second pass over the field values
-		for pass := 0; pass < 4 && quota["field"] > 0; pass++ {
-			for _, bi := range order {
-				if quota["field"] <= 0 {
+		family := func(share int, step func(b *baseFrame)) {
+			limit := used() + n*share/100
+			for pass := 0; pass < 6 && used() < limit; pass++ {
+				before := used()
+				for _, bi := range order {
+					if used() >= limit {
+						break
+					}
+					step(bases[bi])
+				}
+				if used() == before {
 					break
 				}
-				before := len(s.jobs)
-				fieldMutations(s, bases[bi], min(perBase(50), quota["field"]), rnd)
-				quota["field"] -= (len(s.jobs) - before) / 2
 			}
 		}
-		for i := 0; i < quota["splice"]; i++ {
+		family(50, func(b *baseFrame) { fieldMutations(s, b, perBase(50, 2), rnd) })
+		family(15, func(b *baseFrame) { truncations(s, b, false, rnd, perBase(15, 3)) })
+		family(15, func(b *baseFrame) { bitFlips(s, b, false, rnd, perBase(15, 2)) })
+		limit := used() + n*10/100
+		for tries := 0; used() < limit && tries < 10*n; tries++ {
 			a, b := bases[rnd.Intn(len(bases))], bases[rnd.Intn(len(bases))]
 			if a.gc.version == b.gc.version || rnd.Intn(4) == 0 {
 				splice(s, a, b, rnd)
-			} else {
-				i--
 			}
 		}
-		for i := 0; i < quota["random"]; i++ {
+		limit = used() + n*10/100
+		for tries := 0; used() < limit && tries < 10*n; tries++ {
 			randomBytes(s, bases, rnd)
 		}
+	}
+	if os.Getenv("VERIF_FRAME_STATS") != "" {
+		fmt.Fprintf(os.Stderr, "harness-frame: %d bases, %d jobs generated in %.1f s\n", len(bases), len(s.jobs), time.Since(tGen).Seconds())
+	}
+	if os.Getenv("VERIF_FRAME_DRYRUN") != "" {
+		return // only count (with VERIF_FRAME_STATS)
 	}
 	runJobs(s.jobs)
 }
